@@ -273,6 +273,17 @@ func writeEvidence(o *Outcome, wall time.Duration, nviol int, knownIDs []string)
 		"inconclusive":        o.Inconclusive,
 		"violation_counts":    o.ViolCount,
 	}
+	ex := map[string]string{}
+	for _, v := range o.Violations {
+		if _, ok := ex[v.Fingerprint]; !ok {
+			m := v.Case + "/" + v.Type + " " + v.Input + ": " + v.Message
+			if len(m) > 400 {
+				m = m[:400]
+			}
+			ex[v.Fingerprint] = m
+		}
+	}
+	cov["violation_examples"] = ex
 	if len(o.Samples) == 0 {
 		cov["samples"] = []interface{}{"(no sample recorded)"}
 	}
